@@ -121,7 +121,11 @@ def replay_geometry(run, rp):
 
 
 def geometry_one(run, c):
-    text = jcommon.text_of(c, "LF", True)
+    if c.get("arbitrary"):
+        text = "\n".join(c["lines"])
+        res = run.harness("script", [{"id": "0", "files": {}, "workspace": False, "ops": [{"op": "open", "file": "doc.journal", "text": text}, {"op": "req", "file": "doc.journal", "kind": "semanticTokensFull"}]}])[0]
+        return geometry_eval(c08.Doc(text), [[] for _ in c["lines"]], res["steps"][1].get("reply") or [], False)
+    text = jcommon.text_of(c, "LF", c.get("final", True))
     res = run.harness("script", [{"id": "0", "files": {}, "workspace": False, "ops": [{"op": "open", "file": "doc.journal", "text": text}, {"op": "req", "file": "doc.journal", "kind": "semanticTokensFull"}]}])[0]
     doc = c08.Doc(text)
     lex = list(c["lex"])
@@ -256,10 +260,11 @@ def geometry(run, args):
         cases += cs
     hcs = []
     for i, c in enumerate(cases):
-        text = jcommon.text_of(c, "LF", True)
+        c["final"] = (i % 2 == 0)          # every other document ends without a line end
+        text = jcommon.text_of(c, "LF", c["final"])
         n = len(c["lines"])
         ops = [{"op": "open", "file": "doc.journal", "text": text}, {"op": "req", "file": "doc.journal", "kind": "semanticTokensFull"}]
-        ivs = [(0, 0), (0, n), (n // 2, n // 2), (1, max(1, n - 2)), (n - 1, n + 3)]
+        ivs = [(0, 0), (0, n), (n // 2, n // 2), (1, max(1, n - 2)), (n - 1, n + 3), (n - 1, n - 1), (0, n - 1), (0, 4294967295)]
         for a, b in ivs:
             ops.append({"op": "req", "file": "doc.journal", "kind": "semanticTokensRange", "rangeStart": a, "rangeEnd": b})
         hcs.append({"id": "g%d" % i, "files": {}, "workspace": False, "ops": ops, "_ivs": ivs})
@@ -289,7 +294,22 @@ def geometry(run, args):
                 run.diverge("range-not-restriction-of-full", "range request for lines %d..%d returns %d tokens, the full result has %d on those lines; first difference %s" % (
                     a, b, len(got), len(want), next(((x, y) for x, y in zip(got, want) if x != y), None)), case, None)
                 break
+    # arbitrary text: every comment of <= 4 (thorough 5) characters over the tag alphabet, in three placements; there is no lexeme
+    # table for these, so only the generic clauses are judged (order, overlap, inside the line, surrogate pairs, legend)
+    r = run.tlc("Input", "CONSTANTS Family = \"comments\" MaxLen = %d\nINIT Init\nNEXT Next\nINVARIANTS Emit\nCHECK_DEADLOCK FALSE\n" % (4 if not thorough else 5), workers=8, timeout=2400)
+    arb = [c["t"] for c in r.json]
+    hcs = [{"id": "a%d" % i, "files": {}, "workspace": False, "ops": [{"op": "open", "file": "doc.journal", "text": t}, {"op": "req", "file": "doc.journal", "kind": "semanticTokensFull"}]} for i, t in enumerate(arb)]
+    results = run.harness("script", hcs, timeout=3000)
+    for t, res in zip(arb, results):
+        run.count(vf.digest(["arbitrary", t]), True)
+        case = {"family": "geometry", "spec_case": {"lines": t.split("\n"), "lex": [], "eol": "LF", "final": False, "arbitrary": True}}
+        if "panic" in res:
+            run.diverge("panic", "server panicked: " + res["panic"][:300], case, None)
+            continue
+        for sig, what in geometry_eval(c08.Doc(t), [[] for _ in t.split("\n")], res["steps"][1].get("reply") or [], False):
+            table[sig] += 1
+            run.diverge(sig, what, case, None)
     if os.environ.get("VERIF_TABLE"):
         for k, n in sorted(table.items(), key=str):
             print("TABLE", k, n)
-    return len(cases)
+    return len(cases) + len(arb)
